@@ -474,6 +474,24 @@ def _use(run, P):
         guarded = any((norm(whole), False) in path_conditions(f.node, s_)
                       for s_ in ast.walk(f.node) if isinstance(s_, ast.stmt) and holds(s_))
         ok = recv is not None and arg is not None and norm(recv) == norm(arg) and guarded
+    # the nesting level handed to the wrapper accounts for all leading blanks of the line
+    for a_ in ast.walk(f.node):
+        if isinstance(a_, ast.Assign) and any(dotted(t_) == "level" for t_ in a_.targets) \
+                and isinstance(a_.value, ast.BinOp) and isinstance(a_.value.op, ast.FloorDiv):
+            div = a_.value.right
+            unit = None
+            if isinstance(div, ast.Constant):
+                unit = div.value
+            elif isinstance(div, ast.Name):
+                defs_ = [x.value for x in ast.walk(f.node) if isinstance(x, ast.Assign)
+                         and any(dotted(t_) == div.id for t_ in x.targets)]
+                if len(defs_) == 1 and isinstance(defs_[0], ast.Constant):
+                    unit = defs_[0].value
+            run.ob("C20.use", f, a_, unit == 1,
+                   construct=f"level = {norm(a_.value, 50)}: the blanks are divided by one (or rounded up "
+                             f"another way), never rounded down",
+                   why="rounded down to whole indentation steps the wrapper believes the line starts up "
+                       "to step-1 columns further left than it does: wrapped lines come out too wide")
     run.ob("C20.use", f, tests[0] if tests else f.node, ok,
            construct=f"comment test on {norm(recv) if tests and wraps and recv is not None else '?'}; "
                      f"wrapping {norm(arg) if tests and wraps and arg is not None else '?'}",
